@@ -1,7 +1,7 @@
 """C17 - reported diagnostics describe the run that happened (AndersonCD level S + history oracle)."""
 from .solver_common import run_parallel, run_bbox
 
-LEAN_MODULES = ["Skglm.Properties.C17"]
+LEAN_MODULES = ["Skglm.Properties.C17", "Skglm.Properties.FISTA", "Skglm.Properties.GramCD"]
 
 
 def run(ctx, rep):
@@ -12,6 +12,9 @@ def run(ctx, rep):
     run_bbox(ctx, rep, oracles=["history", "history_len", "stop_value"])
     from . import est_common
     est_common.run_n_iter(ctx, rep)
+    from . import moves_common
+    moves_common.run_fista(ctx, rep)
+    moves_common.run_gram_moves(ctx, rep, ctx.n(30, 300))
 
 
 def replay(ctx, payload):
